@@ -98,7 +98,9 @@ UNSUPPORTED = {
 # documented behaviour (README/CHANGELOG): lines starting with these words are ignored by the
 # pre-processor in both modes - no entity and no exception
 IGNORED = ["INSERT INTO t (a, b) VALUES (1, 'x');", "DELETE FROM t WHERE a = 1;", "GRANT SELECT ON t TO joe;",
-           "GRANT ALL PRIVILEGES ON DATABASE db TO admin;", "USE mydb;", "GO", "insert into t values (1);", "go"]
+           "GRANT ALL PRIVILEGES ON DATABASE db TO admin;", "USE mydb;", "GO", "insert into t values (1);", "go",
+           # the same lines without a terminating ';' (the line is skipped as a whole, the next line starts afresh)
+           "INSERT INTO t VALUES (1)", "GRANT SELECT ON t TO joe", "DELETE FROM t", "USE mydb"]
 # known finding C16:set-line-inside-unsupported-statement
 SET_LINE = ["UPDATE t\nSET a = 2\nWHERE b = 3;", "UPDATE s.t\nSET x = 'v'\nWHERE id = 1;"]
 
